@@ -12,6 +12,7 @@ def conditions(tier):
             dict(module=H, func="_unpack_iter", cases=2, what="unpacking and iteration of a traced tuple"),
             dict(module=H, func="_dict", cases=15, what="dict access: [], get, items, keys/values, iteration, len, membership"),
             dict(module=H, func="_mkdict", cases=2, what="autograd dict() constructor from a dict and from pairs"),
+            dict(module=H, func="_mkdict_perm", cases=4, what="a dict built by autograd's dict constructor is the OUTPUT; the cotangent dict has its entries inserted in the same or in another order: pairing is by key"),
             dict(module=H, func="_ext_planted", expect="counterexample", what="planted off-by-one in grad_sequence_extend_left")]
 
 
